@@ -37,6 +37,16 @@ fn more_values() -> Vec<Value> {
         Value::date_time(chrono::NaiveDate::from_ymd_opt(2010, 6, 1).unwrap().and_hms_micro_opt(10, 0, 0, 250_000).unwrap()),
         Value::date_time(chrono::NaiveDate::from_ymd_opt(2010, 6, 1).unwrap().and_hms_micro_opt(10, 0, 0, 750_000).unwrap()),
         Value::date_time(chrono::NaiveDate::from_ymd_opt(2010, 6, 1).unwrap().and_hms_opt(10, 0, 1).unwrap()),
+        // dates before the common era and beyond year 9999 (their ISO text does not sort chronologically)
+        Value::date(chrono::NaiveDate::from_ymd_opt(-50, 1, 1).unwrap()),
+        Value::date(chrono::NaiveDate::from_ymd_opt(-44, 3, 15).unwrap()),
+        Value::date(chrono::NaiveDate::from_ymd_opt(-1, 12, 31).unwrap()),
+        Value::date(chrono::NaiveDate::from_ymd_opt(14, 8, 19).unwrap()),
+        Value::date(chrono::NaiveDate::from_ymd_opt(9999, 12, 31).unwrap()),
+        Value::date(chrono::NaiveDate::from_ymd_opt(10000, 1, 1).unwrap()),
+        Value::date_time(chrono::NaiveDate::from_ymd_opt(-44, 3, 15).unwrap().and_hms_opt(12, 0, 0).unwrap()),
+        Value::date_time(chrono::NaiveDate::from_ymd_opt(-50, 1, 1).unwrap().and_hms_opt(0, 0, 0).unwrap()),
+        Value::date_time(chrono::NaiveDate::from_ymd_opt(14, 8, 19).unwrap().and_hms_opt(0, 0, 0).unwrap()),
         Value::duration(chrono::Duration::milliseconds(30_250)),
         Value::duration(chrono::Duration::milliseconds(30_750)),
     ]
@@ -59,6 +69,11 @@ fn more_types() -> Vec<DataType> {
         DataType::text_values([s("true"), s("false")]),
         DataType::text_values([s("2000-02-29"), s("2000-02-29 00:00:00")]),
         DataType::Float(I::from_intervals([[0.0, 0.0], [1.0, 1.0], [2.0, 2.0]])),
+        // date / datetime ranges longer than 128 days that start before the common era or end after year 9999
+        DataType::date_interval(chrono::NaiveDate::from_ymd_opt(-50, 1, 1).unwrap(), chrono::NaiveDate::from_ymd_opt(14, 8, 19).unwrap()),
+        DataType::date_interval(chrono::NaiveDate::from_ymd_opt(-50, 1, 1).unwrap(), chrono::NaiveDate::from_ymd_opt(-1, 12, 31).unwrap()),
+        DataType::date_interval(chrono::NaiveDate::from_ymd_opt(9999, 1, 1).unwrap(), chrono::NaiveDate::from_ymd_opt(10000, 12, 31).unwrap()),
+        DataType::date_time_interval(chrono::NaiveDate::from_ymd_opt(-50, 1, 1).unwrap().and_hms_opt(0, 0, 0).unwrap(), chrono::NaiveDate::from_ymd_opt(14, 8, 19).unwrap().and_hms_opt(0, 0, 0).unwrap()),
     ]
 }
 
